@@ -5,15 +5,16 @@ pub mod c21;
 pub mod um;
 pub mod um_model;
 pub mod um_oracle;
+pub mod um_suites;
 
 pub fn for_property(p: &str) -> Vec<Suite> {
     match p {
         "C21" => c21::suites(),
-        "C01" => vec![um_model::c01_model(), um_oracle::c01_oracle()],
-        "C02" => vec![um_model::c02_model(), um_oracle::c02_oracle()],
-        "C03" => vec![um_model::c03_model(), um_oracle::c03_oracle()],
-        "C04" => vec![um_model::c04_model(), um_oracle::c04_oracle()],
-        "C27" => vec![um_model::c27_model(), um_oracle::c27_oracle()],
+        "C01" => um_suites::c01(),
+        "C02" => um_suites::c02(),
+        "C03" => um_suites::c03(),
+        "C04" => um_suites::c04(),
+        "C27" => um_suites::c27(),
         _ => vec![],
     }
 }
